@@ -206,10 +206,13 @@ fn c05(tier: Tier, seed: u64, case: u64) -> CaseReport {
                 if counter.iter().map(|x| (*x).clone()).collect::<Vec<_>>() != want_counter {
                     rep.violate("lsp-inline-counter-hint", "clean", format!("note {}: hints {:?}, {} inline references by the scan", k, counter, n_inline), replay.clone());
                 }
-                // container hints: one per distinct title of the notes that block-reference k
-                let mut want_up: Vec<String> = eb.get(k).cloned().unwrap_or_default().iter().map(|(o, _)| format!("↖{}", titles.get(o).cloned().unwrap_or_default())).collect();
+                // container hints: one per note that block-references k (notes are told apart by their key: two notes
+                // that share a title, or have none, are two places)
+                let mut owners: Vec<String> = eb.get(k).cloned().unwrap_or_default().iter().map(|(o, _)| o.clone()).collect();
+                owners.sort();
+                owners.dedup();
+                let mut want_up: Vec<String> = owners.iter().map(|o| format!("↖{}", titles.get(o).cloned().unwrap_or_default())).collect();
                 want_up.sort();
-                want_up.dedup();
                 let mut got_up: Vec<String> = labels.iter().filter(|l| l.0.starts_with('↖')).map(|l| norm(&l.0)).collect();
                 got_up.sort();
                 if got_up != want_up {
